@@ -157,6 +157,7 @@ func replayMain(args []string) error {
 	out := fs.String("out", "trace.ndjson", "ndjson trace to write")
 	from := fs.Int("from", 0, "first behaviour (index in file order)")
 	to := fs.Int("to", -1, "behaviour after the last one (-1: all)")
+	maxHangs := fs.Int("maxhangs", 2, "stop after this many runs in which a request never returned (each costs the time-outs)")
 	fs.Parse(args)
 	w, err := world0(*catf)
 	if err != nil {
@@ -219,8 +220,12 @@ func replayMain(args []string) error {
 		if !hung {
 			s.node.Drop()
 		}
+		if hangs >= *maxHangs {
+			break
+		}
 	}
-	stats(map[string]interface{}{"runs": runs, "steps": nsteps, "unbound": unbound, "hangs": hangs, "sign_tries": w.tries, "lockkeys": w.lockKeysDiffer})
+	stats(map[string]interface{}{"runs": runs, "steps": nsteps, "unbound": unbound, "hangs": hangs, "sign_tries": w.tries, "lockkeys": w.lockKeysDiffer,
+		"truncated": runs < *to-*from})
 	return nil
 }
 
@@ -311,6 +316,9 @@ func stressMain(args []string) error {
 			s.node.Drop()
 		}
 		tw.Emit(ev)
+		if hangs >= 2 {
+			break
+		}
 	}
 	stats(map[string]interface{}{"runs": *nruns, "hangs": hangs, "sign_tries": w.tries, "lockkeys": w.lockKeysDiffer})
 	return nil
